@@ -69,7 +69,7 @@ struct rrul_key_cell_s {
 	const char *keystr;
 	rrul_key_t key;
 };
-/* maximum key range = 30, duplicates = 0 */
+/* maximum key range = 32, duplicates = 0 */
 
 #ifdef __GNUC__
 __inline
@@ -83,32 +83,32 @@ __evrrul_key_hash (register const char *str, register size_t len)
 {
   static const unsigned char asso_values[] =
     {
-      34, 34, 34, 34, 34, 34, 34, 34, 34, 34,
-      34, 34, 34, 34, 34, 34, 34, 34, 34, 34,
-      34, 34, 34, 34, 34, 34, 34, 34, 34, 34,
-      34, 34, 34, 34, 34, 34, 34, 34, 34, 34,
-      34, 34, 34, 34, 34, 34, 34, 34, 34, 34,
-      34, 34, 34, 34, 34, 34, 34, 34, 34, 34,
-      34, 34, 34, 34, 34,  5, 34, 25,  0,  5,
-      34, 34,  0, 10, 34, 34,  5,  0,  0, 34,
-      34, 34,  5,  0, 15,  0, 34,  5, 34,  0,
-      34, 34, 34, 34, 34, 34, 34, 34, 34, 34,
-      34, 34, 34, 34, 34, 34, 34, 34, 34, 34,
-      34, 34, 34, 34, 34, 34, 34, 34, 34, 34,
-      34, 34, 34, 34, 34, 34, 34, 34, 34, 34,
-      34, 34, 34, 34, 34, 34, 34, 34, 34, 34,
-      34, 34, 34, 34, 34, 34, 34, 34, 34, 34,
-      34, 34, 34, 34, 34, 34, 34, 34, 34, 34,
-      34, 34, 34, 34, 34, 34, 34, 34, 34, 34,
-      34, 34, 34, 34, 34, 34, 34, 34, 34, 34,
-      34, 34, 34, 34, 34, 34, 34, 34, 34, 34,
-      34, 34, 34, 34, 34, 34, 34, 34, 34, 34,
-      34, 34, 34, 34, 34, 34, 34, 34, 34, 34,
-      34, 34, 34, 34, 34, 34, 34, 34, 34, 34,
-      34, 34, 34, 34, 34, 34, 34, 34, 34, 34,
-      34, 34, 34, 34, 34, 34, 34, 34, 34, 34,
-      34, 34, 34, 34, 34, 34, 34, 34, 34, 34,
-      34, 34, 34, 34, 34, 34
+      36, 36, 36, 36, 36, 36, 36, 36, 36, 36,
+      36, 36, 36, 36, 36, 36, 36, 36, 36, 36,
+      36, 36, 36, 36, 36, 36, 36, 36, 36, 36,
+      36, 36, 36, 36, 36, 36, 36, 36, 36, 36,
+      36, 36, 36, 36, 36, 36, 36, 36, 36, 36,
+      36, 36, 36, 36, 36, 36, 36, 36, 36, 36,
+      36, 36, 36, 36, 36,  5, 36, 25, 30,  5,
+      36, 36,  0, 10, 36, 36,  5,  0,  0, 36,
+       0, 36,  5,  0, 15,  0, 36,  5, 36,  0,
+      36, 36, 36, 36, 36, 36, 36, 36, 36, 36,
+      36, 36, 36, 36, 36, 36, 36, 36, 36, 36,
+      36, 36, 36, 36, 36, 36, 36, 36, 36, 36,
+      36, 36, 36, 36, 36, 36, 36, 36, 36, 36,
+      36, 36, 36, 36, 36, 36, 36, 36, 36, 36,
+      36, 36, 36, 36, 36, 36, 36, 36, 36, 36,
+      36, 36, 36, 36, 36, 36, 36, 36, 36, 36,
+      36, 36, 36, 36, 36, 36, 36, 36, 36, 36,
+      36, 36, 36, 36, 36, 36, 36, 36, 36, 36,
+      36, 36, 36, 36, 36, 36, 36, 36, 36, 36,
+      36, 36, 36, 36, 36, 36, 36, 36, 36, 36,
+      36, 36, 36, 36, 36, 36, 36, 36, 36, 36,
+      36, 36, 36, 36, 36, 36, 36, 36, 36, 36,
+      36, 36, 36, 36, 36, 36, 36, 36, 36, 36,
+      36, 36, 36, 36, 36, 36, 36, 36, 36, 36,
+      36, 36, 36, 36, 36, 36, 36, 36, 36, 36,
+      36, 36, 36, 36, 36, 36
     };
   register unsigned int hval = len;
 
@@ -130,19 +130,19 @@ __evrrul_key (register const char *str, register size_t len)
 {
   enum
     {
-      TOTAL_KEYWORDS = 17,
+      TOTAL_KEYWORDS = 18,
       MIN_WORD_LENGTH = 4,
       MAX_WORD_LENGTH = 10,
       MIN_HASH_VALUE = 4,
-      MAX_HASH_VALUE = 33
+      MAX_HASH_VALUE = 35
     };
 
   static const struct rrul_key_cell_s wordlist[] =
     {
 #line 56 "evrrul-gp.erf"
       {"WKST", KEY_WKST},
-#line 62 "evrrul-gp.erf"
-      {"BYDAY", BY_WDAY},
+#line 68 "evrrul-gp.erf"
+      {"BYPOS", BY_POS},
 #line 61 "evrrul-gp.erf"
       {"BYHOUR", BY_HOUR},
 #line 66 "evrrul-gp.erf"
@@ -153,7 +153,7 @@ __evrrul_key (register const char *str, register size_t len)
       {"FREQ", KEY_FREQ},
 #line 63 "evrrul-gp.erf"
       {"BYMONTHDAY", BY_MDAY},
-#line 68 "evrrul-gp.erf"
+#line 69 "evrrul-gp.erf"
       {"BYEASTER", BY_EASTER},
 #line 64 "evrrul-gp.erf"
       {"BYYEARDAY", BY_YDAY},
@@ -172,7 +172,9 @@ __evrrul_key (register const char *str, register size_t len)
 #line 58 "evrrul-gp.erf"
       {"SHIFT", KEY_SHIFT},
 #line 59 "evrrul-gp.erf"
-      {"BYSECOND", BY_SEC}
+      {"BYSECOND", BY_SEC},
+#line 62 "evrrul-gp.erf"
+      {"BYDAY", BY_WDAY}
     };
 
   if (len <= MAX_WORD_LENGTH && len >= MIN_WORD_LENGTH)
@@ -235,6 +237,9 @@ __evrrul_key (register const char *str, register size_t len)
                 goto compare;
               case 29:
                 resword = &wordlist[16];
+                goto compare;
+              case 31:
+                resword = &wordlist[17];
                 goto compare;
             }
           return 0;
